@@ -16,6 +16,7 @@ import (
 	"verifharness/inproc"
 	"verifharness/kit"
 	"verifharness/respx"
+	"verifharness/srv"
 )
 
 // ---------------------------------------------------------------- exact payload round trips
@@ -334,6 +335,13 @@ func execStorm(c StormCase) kit.Outcome {
 				o.Fail = fmt.Sprintf("server died: %.300s", server.CrashReport())
 				stopServer()
 				return o
+			}
+			if _, isFraming := err.(*respx.FramingError); !isFraming && err != srv.ErrTimeout {
+				// the connection was closed under us: a subscriber that does not keep up with the publishers is
+				// dropped by the server after its 1 s write time-out (C19), which is what a reader on a busy machine
+				// looks like. Not a violation of framing or order; the case decides nothing.
+				stop.Store(true)
+				return kit.Outcome{Inconclusive: true, Labels: []string{"storm: subscriber dropped as too slow"}}
 			}
 			o.Fail = fmt.Sprintf("subscribed connection, after %d replies and %d pushes: %v; undecoded bytes %.100q", replies, pushes, err, sub.R.Buffered())
 			return o
